@@ -18,7 +18,11 @@ def coins_to_satoshis(coins):
 
 
 def satoshis_to_coins(satoshis):
-    coins = '{:.8f}'.format(satoshis / COIN).rstrip('0')
+    if isinstance(satoshis, int):
+        whole, fractional = divmod(abs(satoshis), COIN)
+        coins = f"{'-' if satoshis < 0 else ''}{whole}.{fractional:08d}".rstrip('0')
+    else:
+        coins = '{:.8f}'.format(satoshis / COIN).rstrip('0')
     if coins.endswith('.'):
         return coins+'0'
     else:
